@@ -3,6 +3,7 @@ import BstreamVerif.Drv.Cursor
 import BstreamVerif.Drv.Gates
 import BstreamVerif.Drv.Server
 import BstreamVerif.Drv.ForkableDrv
+import BstreamVerif.Drv.Files
 /-
 bsmodel: reads the harness file (op / impl lines grouped in cases) on stdin, prints for every `op`
 line the model's answer (`model …`) and the monitor verdict on the implementation's answer.
@@ -16,6 +17,7 @@ def statelessOp (suite : String) (ws impl : List String) : Option (String × Str
   match suite with
   | "range" => some (RangeDrv.op ws, RangeDrv.monitor ws impl)
   | "cursor" => some (CursorDrv.op ws, CursorDrv.monitor ws impl)
+  | "oneblock" => some (FilesDrv.opOneBlock ws, FilesDrv.monitorOneBlock ws impl)
   | _ => none
 
 /-- stateful suites: header, body lines (each already split) → output lines -/
@@ -24,6 +26,7 @@ def statefulCase (suite : String) (hdr : List String) (body : List (List String)
   | "gates" | "gator" | "minfilter" | "tripper" => some (GatesDrv.handle hdr body)
   | "server" => some (ServerDrv.handle hdr body)
   | "forkable" => some (ForkableDrv.handle hdr body)
+  | "dbin" => some (FilesDrv.handleDbin hdr body)
   | _ => none
 
 def processCase (out : IO.FS.Stream) (hdr : List String) (body : Array (List String)) : IO Unit := do
